@@ -178,7 +178,34 @@ def dispatch(E, c, tc, args):
                 it.pos = len(it.items)
                 return acc
             if meth == "map":
-                return VSeq([("lazy_map", args[1], x) for x in rest], "lazy")
+                # closures handed to map are pure projections in this crate: apply eagerly
+                return VSeq([E.call_value(args[1], [x]) for x in rest], "iter")
+            if meth == "filter":
+                keep = []
+                for x in rest:
+                    b = E.call_value(args[1], [VRef(Cell(x, "filter_item"))])
+                    if E.choose([b.t, z3.Not(b.t)], "filter") == 0:
+                        keep.append(x)
+                return VSeq(keep, "iter")
+            if meth == "filter_map":
+                keep = []
+                for x in rest:
+                    r = E.force_arg(E.call_value(args[1], [x]))
+                    if r.variant == "Some":
+                        keep.append(r.fields[0])
+                return VSeq(keep, "iter")
+            if meth == "sum":
+                acc = None
+                for x in rest:
+                    xv = deref(E, x)
+                    acc = xv.t if acc is None else acc + xv.t
+                ty = deref(E, rest[0]).ty if rest else "usize"
+                from engine import in_range
+                t = acc if acc is not None else z3.IntVal(0)
+                i = E.choose([in_range(t, ty), z3.Not(in_range(t, ty))], "sum overflow")
+                if i == 1:
+                    raise PathAbort("panic", "attempt to add with overflow (sum)")
+                return VInt(t, ty)
             if meth == "enumerate":
                 return VSeq([VStruct("()", [VInt(k, "usize"), x]) for k, x in enumerate(rest)], "iter")
             if meth == "count":
